@@ -497,6 +497,7 @@ func vrtConnPushRead(ex *Exec, fn *ssa.Function, args []Value) []Value {
 
 // vrt_ConnWritten(conn) []byte: everything written to conn so far, concatenated.
 func vrtConnWritten(ex *Exec, fn *ssa.Function, args []Value) []Value {
+	ex.schedPoint("observe") // reads what other goroutines have written to the socket
 	cs := connOf(ex, args[0])
 	var all []*Term
 	for _, w := range cs.writes {
